@@ -35,6 +35,8 @@ def body_plan(kind):
         return []
     if kind == 'one':
         return [('write', 'new-1\n')]
+    if kind == 'two':
+        return [('write', 'second-save\n'), ('write', 'more\n')]
     if kind == 'many':
         return [('write', 'line-%d\n' % i) for i in range(5)]
     if kind == 'big':
@@ -73,6 +75,19 @@ def configs(tier):
                     for b in bodies:
                         out.append({'text_mode': text, 'dest_present': present, 'overwrite': overwrite,
                                     'file_perms': perms, 'body': b})
+    base = list(out)
+    # non-default buffering (unbuffered binary, line-buffered text, tiny buffer) on the bodies that write
+    for c in base:
+        if c['file_perms'] is None and c['body'] in ('one', 'mix', 'flush', 'seek'):
+            for buf in ((0, 16) if not c['text_mode'] else (1, 16)):
+                out.append(dict(c, buffering=buf))
+    # a stale part file taken over with overwrite_part=True: independent file, or (left by a save that died between
+    # link and unlink) a second hard link of the destination
+    for c in base:
+        if c['file_perms'] is None and c['body'] in ('none', 'one', 'big') and c['overwrite']:
+            kinds = ['stale'] + (['hardlink'] if c['dest_present'] else [])
+            for kind in kinds:
+                out.append(dict(c, overwrite_part=True, part=kind))
     return out
 
 
@@ -83,12 +98,36 @@ class Scenario:
         self.plan = body_plan(cfg['body'])
         self.new = expected_content(self.plan)
 
+        self.initial = self.initial_state()
+        ent = self.initial.get('dest.txt')
+        self.old = None if ent is None else ent[1]
+
+    def initial_state(self):
+        """{name: (mode, content, link group)} - files of one group are hard links of each other."""
+        cfg = self.cfg
+        if cfg.get('initial') is not None:
+            return {k: (v[0], v[1].encode('latin-1'), v[2]) for k, v in cfg['initial'].items()}
+        st = {}
+        if cfg['dest_present']:
+            st['dest.txt'] = (OLD_MODE, OLD, 0)
+        if cfg.get('part') == 'stale':
+            st['dest.txt.part'] = (0o600, b'STALE-PART-FROM-AN-EARLIER-SAVE', 1)
+        elif cfg.get('part') == 'hardlink':
+            st['dest.txt.part'] = (OLD_MODE, OLD, 0)
+        return st
+
     def prepare(self):
         os.makedirs(self.d)
-        if self.cfg['dest_present']:
-            with open(self.dest, 'wb') as f:
-                f.write(OLD)
-            os.chmod(self.dest, OLD_MODE)
+        first = {}
+        for name, (mode, data, grp) in sorted(self.initial.items()):
+            p = os.path.join(self.d, name)
+            if grp in first:
+                os.link(first[grp], p)
+                continue
+            with open(p, 'wb') as f:
+                f.write(data)
+            os.chmod(p, mode)
+            first[grp] = p
 
     def run(self, env):
         """Executes the save.  Returns None or the exception the caller saw."""
@@ -98,9 +137,7 @@ class Scenario:
         saved = fileutils.os
         fileutils.os = proxy
         try:
-            kw = {'text_mode': cfg['text_mode'], 'overwrite': cfg['overwrite']}
-            if cfg['file_perms'] is not None:
-                kw['file_perms'] = cfg['file_perms']
+            kw = save_kwargs(cfg)
             env.decide({'name': 'checkpoint', 'key': ('before with',)})
             with fileutils.atomic_save(self.dest, **kw) as f:
                 env.decide({'name': 'checkpoint', 'key': ('enter',)})
@@ -122,6 +159,28 @@ class Scenario:
             fileutils.os = saved
 
 
+def save_kwargs(cfg):
+    kw = {'text_mode': cfg['text_mode'], 'overwrite': cfg['overwrite']}
+    if cfg['file_perms'] is not None:
+        kw['file_perms'] = cfg['file_perms']
+    if cfg.get('buffering') is not None:
+        kw['buffering'] = cfg['buffering']
+    if cfg.get('overwrite_part'):
+        kw['overwrite_part'] = True
+    return kw
+
+
+def link_state(raw):
+    """{name: [mode, content(latin-1), link group]} from a raw snapshot (files with one inode share a group)."""
+    groups = {}
+    out = {}
+    for name in sorted(raw):
+        mode, data, ino = raw[name]
+        g = groups.setdefault(ino, len(groups))
+        out[name] = [mode, data.decode('latin-1'), g]
+    return out
+
+
 def norm_snap(snap):
     return {k: (v[0], v[1]) for k, v in snap.items()}
 
@@ -130,9 +189,9 @@ def dest_ok(snap, sc):
     """dest content in {old or absent, complete new}; returns None if ok else description."""
     ent = snap.get('dest.txt')
     if ent is None:
-        return None if not sc.cfg['dest_present'] else 'destination vanished'
+        return None if sc.old is None else 'destination vanished'
     data = ent[1]
-    if sc.cfg['dest_present'] and data == OLD:
+    if sc.old is not None and data == sc.old:
         return None
     if data == sc.new:
         return None
@@ -152,9 +211,10 @@ def durable_states(log, k, sc):
     fdmap = {}
     meta = []           # metadata ops in order: ('bind', name, fid) / ('unbind', name)
     nextfid = [0]
-    if sc.cfg['dest_present']:
-        files['old'] = {'writes': [(0, OLD, True)]}
-        names['dest.txt'] = 'old'
+    for name, (mode, data, grp) in sorted(sc.initial.items()):
+        fid = 'init%d' % grp
+        files.setdefault(fid, {'writes': [[0, data, True]]})
+        names[name] = fid
     base_names = dict(names)
     for ev in log[:k]:
         nm = ev['name']
@@ -170,6 +230,8 @@ def durable_states(log, k, sc):
                 files[fid] = {'writes': []}
                 names[path] = fid
                 meta.append(('bind', path, fid))
+            elif path in names and flags & os.O_TRUNC:
+                files[names[path]]['writes'].append([None, b'', False])     # truncation of an existing file
             fdmap[res] = names.get(path)
         elif nm == 'raw_write':
             fid = fdmap.get(ev['fd'])
@@ -219,6 +281,9 @@ def durable_states(log, k, sc):
             buf = bytearray()
             for i, (off, data, _) in enumerate(ws):
                 if i in lost:
+                    continue
+                if off is None:
+                    buf = bytearray()
                     continue
                 if len(buf) < off:
                     buf.extend(b'\0' * (off - len(buf)))
@@ -293,8 +358,13 @@ def run_config(task):
     # snapshot before every point: wrap decide
     orig_decide = env.decide
 
+    raw_states = {}
+
     def decide(ev):
-        snaps[len(env.choices)] = norm_snap(envfaults.snapshot(d))
+        raw = envfaults.snapshot(d)
+        snaps[len(env.choices)] = norm_snap(raw)
+        st = link_state(raw)
+        raw_states.setdefault(json.dumps(st, sort_keys=True), st)
         return orig_decide(ev)
     env.decide = decide
     exc = sc.run(env)
@@ -327,11 +397,11 @@ def run_config(task):
         for j, lost, content in durable_states(env.log, k, sc):
             nstates += 1
             if content is None:
-                if sc.cfg['dest_present']:
+                if sc.old is not None:
                     bad('crash', 'power loss', 'dest in {previous, complete new}', 'destination name lost',
                         {'log_prefix': k, 'metadata_prefix': j})
                 continue
-            if content == sc.new or (sc.cfg['dest_present'] and content == OLD):
+            if content == sc.new or (sc.old is not None and content == sc.old):
                 continue
             bad('crash', 'power loss', 'dest in {previous, complete new}',
                 'durable destination holds %d bytes, neither previous nor complete new content' % len(content),
@@ -374,6 +444,7 @@ def run_config(task):
             shutil.rmtree(d2, ignore_errors=True)
     t.extra['log_sample'] = 0
     shutil.rmtree(d, ignore_errors=True)
+    t.crash_states = list(raw_states.values())
     return t, [(e['name'],) + tuple(a if not isinstance(a, str) else os.path.basename(a) for a in e.get('args', ()))
                for e in env.log]
 
@@ -391,8 +462,7 @@ sc = m.Scenario(cfg, d)
 class NullEnv:
     def decide(self, ev): return None
 from boltons import fileutils
-kw = {'text_mode': cfg['text_mode'], 'overwrite': cfg['overwrite']}
-if cfg['file_perms'] is not None: kw['file_perms'] = cfg['file_perms']
+kw = m.save_kwargs(cfg)
 os.write(1, b'BEGIN\n')
 with fileutils.atomic_save(sc.dest, **kw) as f:
     for st in sc.plan:
@@ -503,6 +573,27 @@ def run(ctx):
         total = inputs.Tally()
         for t, _ in results:
             total.merge(t)
+        # second wave - histories of two saves: every distinct directory state in which a first save can die is the
+        # initial state of a recovery save (overwrite_part=True), whose crash points are enumerated in turn
+        seen2, tasks2 = set(), []
+        for (cfg, _, _), (t, _) in zip(tasks, results):
+            if cfg.get('initial') is not None or cfg['body'] not in ('one', 'big') or cfg['file_perms'] is not None \
+                    or cfg.get('buffering') is not None:
+                continue
+            for st in t.crash_states:
+                if 'dest.txt.part' not in st:
+                    continue
+                for body2 in (('two',) if ctx.quick() else ('two', 'none', 'mix')):
+                    cfg2 = {'text_mode': cfg['text_mode'], 'dest_present': 'dest.txt' in st, 'overwrite': True,
+                            'file_perms': None, 'body': body2, 'overwrite_part': True, 'initial': st}
+                    key = json.dumps(cfg2, sort_keys=True)
+                    if key not in seen2:
+                        seen2.add(key)
+                        tasks2.append((cfg2, base, not ctx.quick()))
+        results2 = core.pmap(run_config, tasks2, chunksize=2)
+        for t, _ in results2:
+            total.merge(t)
+        ctx.coverage['two_save_histories'] = len(tasks2)
         for key in sorted(total.viols):
             case, exp, obs, detail, tags, occ, sig = total.viols[key]
             ctx.violation(sig, case, exp, obs, detail, tags)
@@ -517,7 +608,10 @@ def run(ctx):
         # strace conformance
         if shutil.which('strace'):
             sel = list(range(len(cfgs))) if not ctx.quick() else \
-                [i for i, c in enumerate(cfgs) if c['body'] in ('mix', 'seek') and c['file_perms'] is None][:6]
+                [i for i, c in enumerate(cfgs) if c['body'] in ('mix', 'seek') and c['file_perms'] is None
+                 and c.get('buffering') is None][:6] + \
+                [i for i, c in enumerate(cfgs) if c.get('buffering') == 0][:2] + \
+                [i for i, c in enumerate(cfgs) if c.get('part')][:3]
             stasks = [(cfgs[i], base, [e[0] for e in results[i][1]]) for i in sel]
             sres = core.pmap(strace_run, stasks)
             cov['strace_traces_compared'] = len(sres)
@@ -539,6 +633,7 @@ def run(ctx):
         cov['exhaustive'] = True
         cov['bounds'] = {'bodies': ['none', 'one', 'many', 'big', 'mix', 'flush', 'seek', 'bigflush'],
                          'big_write_bytes': BIG, 'max_unsynced_writes_enumerated': 12}
+        ctx.note('two-save histories=%d' % len(tasks2))
         ctx.note('configs=%d crash_points=%d power_loss_states=%d fork_kill=%d strace=%d'
                  % (len(cfgs), cov.get('crash_points', 0), cov.get('power_loss_states', 0),
                     cov.get('fork_kill_replays', 0), cov.get('strace_traces_compared', 0)))
